@@ -53,7 +53,9 @@ fn drive(opts: &Opts, level: &str, label: &str, workloads: u64, jobs: usize, rul
     let again = run_range((jobs / 3).max(1), st_n);
     let d1: std::collections::BTreeMap<u64, u64> = total.digests.iter().cloned().collect();
     let mism: Vec<u64> = again.digests.iter().filter(|(s, d)| d1.get(s) != Some(d)).map(|(s, _)| *s).collect();
-    if !mism.is_empty() {
+    // (when violations were found they are reported: a broken tree may well behave
+    // differently from run to run, and each violation has its own replay file)
+    if !mism.is_empty() && total.violations.is_empty() {
         harness_error(&format!("determinism self-test failed: {} of {} re-executed workloads differ (sub-seeds {:?})", mism.len(), again.digests.len(), &mism[..mism.len().min(3)]));
     }
     if opts.property == "C08" && total.distinct.is_empty() {
@@ -69,7 +71,7 @@ fn drive(opts: &Opts, level: &str, label: &str, workloads: u64, jobs: usize, rul
     rep.extra.insert("workload_mix".into(), total.mix.to_json());
     rep.extra.insert("workloads".into(), json!(workloads));
     rep.extra.insert("workloads_skipped_by_time_budget".into(), json!(skipped.load(std::sync::atomic::Ordering::Relaxed)));
-    rep.extra.insert("determinism_selftest".into(), json!({"workloads_reexecuted": again.digests.len(), "mismatches": 0, "driver_threads": [jobs, (jobs / 3).max(1)]}));
+    rep.extra.insert("determinism_selftest".into(), json!({"workloads_reexecuted": again.digests.len(), "mismatches": mism.len(), "driver_threads": [jobs, (jobs / 3).max(1)]}));
     rep.extra.insert("components".into(), components());
     rep.assumptions = assumptions;
     if let Some(path) = opts.get("merge") {
@@ -103,6 +105,33 @@ fn main() {
     for p in [RG, SHIM, SCHED, STUB] {
         if !std::path::Path::new(p).exists() {
             harness_error(&format!("{p} is missing (run ./check or ./setup.sh, which build it)"));
+        }
+    }
+    // the binary under test must have been built from the sources as they are now
+    // (./check rebuilds it; running this program directly after an edit would not)
+    fn newest(dir: &std::path::Path, t: &mut std::time::SystemTime) {
+        if let Ok(rd) = std::fs::read_dir(dir) {
+            for e in rd.flatten() {
+                let p = e.path();
+                if p.is_dir() {
+                    if p.file_name().map_or(false, |n| n != "target" && n != ".git") {
+                        newest(&p, t);
+                    }
+                } else if p.extension().map_or(false, |x| x == "rs" || x == "toml") {
+                    if let Ok(m) = e.metadata().and_then(|m| m.modified()) {
+                        if m > *t {
+                            *t = m;
+                        }
+                    }
+                }
+            }
+        }
+    }
+    let mut src = std::time::UNIX_EPOCH;
+    newest(std::path::Path::new("/repo/crates"), &mut src);
+    if let Ok(bin) = std::fs::metadata(RG).and_then(|m| m.modified()) {
+        if bin < src {
+            harness_error(&format!("{RG} is older than the sources under /repo/crates (run ./check, which rebuilds it)"));
         }
     }
     if let Some(p) = &opts.replay {
@@ -171,7 +200,7 @@ fn main() {
                 &opts,
                 "exploration",
                 "c02c03cli",
-                opts.cases(700, 10000),
+                opts.cases(3000, 30000),
                 jobs,
                 "CLI leg: per workload one generated file (0-45 lines, LF or mixed CRLF, with/without final newline) and one seeded flag combination (-A/-B/-C in three spellings, --passthru, -v, -n/-N, --stop-on-nonmatch, --crlf), searched by the real rg via memory map, via read(), via standard input, and via read() under syscall-level fragmentation with EINTR. C02: all routes print identical bytes and exit alike. C03: the bytes equal the rendering of the grep model (line numbers, ':' / '-' markers, '--' separators) and the exit status follows.",
                 vec!["literal pattern foo; the CLI leg checks the wiring of command-line flags to the searcher and printer in addition to the library leg".into()],
